@@ -284,7 +284,19 @@ def makeMachine() -> Callable[[_Core], _Client]:
     def attemptConnection(
         c: _Client, s: _Core, failure: Optional[Failure] = None
     ) -> Deferred[_ReconnectingProtocolProxy]:
-        factoryProxy = _DisconnectFactory(s.factory, c._clientDisconnected)
+        # Only a connection that was handed to the state machine (i.e. that
+        # passed prepareConnection) may report its loss as an input.  One that
+        # is lost earlier fails this attempt instead; one that was rejected or
+        # abandoned is nobody's "current connection" any more.
+        accepted: list[bool] = []
+
+        def disconnected(reason: Failure) -> None:
+            if accepted:
+                c._clientDisconnected(reason)
+            else:
+                connectingProxy.cancel()
+
+        factoryProxy = _DisconnectFactory(s.factory, disconnected)
         connecting: Deferred[IProtocol] = s.endpoint.connect(factoryProxy)
 
         def prepare(
@@ -301,9 +313,14 @@ def makeMachine() -> Callable[[_Core], _Client]:
         # https://github.com/Shoobx/mypy-zope/issues/95
         connectingProxy: Deferred[_ReconnectingProtocolProxy]
         connectingProxy = connecting  # type:ignore[assignment]
+
+        def made(protocol: _ReconnectingProtocolProxy) -> None:
+            accepted.append(True)
+            c._connectionMade(protocol)
+
         (
             connectingProxy.addCallback(prepare)
-            .addCallback(c._connectionMade)
+            .addCallback(made)
             .addErrback(c._connectionFailed)
         )
         return connectingProxy
